@@ -82,6 +82,38 @@ func (u *Unit) localResolver(fc *frameCtx, li *loopInfo, st *State, pc *Term, ph
 				}
 			}
 		}
+		if best == nil {
+			// no reference dominates the header: look at references anywhere whose *value* is defined before the loop
+			for _, b := range fn.Blocks {
+				for _, in := range b.Instrs {
+					x, ok := in.(*ssa.DebugRef)
+					if !ok {
+						continue
+					}
+					id, ok := x.Expr.(*ast.Ident)
+					if !ok || id.Name != name {
+						continue
+					}
+					if _, defined := fc.vals[x.X]; !defined {
+						continue
+					}
+					def, isInstr := x.X.(ssa.Instruction)
+					if isInstr && (def.Block() == nil || !def.Block().Dominates(li.header) || li.blocks[def.Block()]) {
+						continue
+					}
+					if _, isPhi := x.X.(*ssa.Phi); isPhi {
+						continue
+					}
+					var db *ssa.BasicBlock
+					if isInstr {
+						db = def.Block()
+					}
+					if best == nil || (bestBlock != nil && db != nil && bestBlock.Dominates(db)) {
+						best, bestAddr, bestBlock = x.X, x.IsAddr, db
+					}
+				}
+			}
+		}
 		if best != nil {
 			v := u.val(fc, best)
 			if bestAddr {
@@ -141,6 +173,7 @@ func (u *Unit) loopHeader(fc *frameCtx, fi *fnInfo, li *loopInfo, st *State, pc 
 	}
 	// 1. invariant holds on entry
 	envIn := u.loopEnv(fc, li, st, pc, entryVals)
+	envIn.loopBound = st.alloc
 	for i, inv := range lc.Invariants {
 		p := u.evalClause(envIn, inv)
 		label := inv.Label
@@ -188,6 +221,7 @@ func (u *Unit) loopHeader(fc *frameCtx, fi *fnInfo, li *loopInfo, st *State, pc 
 	}
 	// 4. assume the invariant for an arbitrary iteration
 	envH := u.loopEnv(fc, li, st, pc, newVals)
+	envH.loopBound = al.bound
 	for _, inv := range lc.Invariants {
 		u.assume(pc, u.evalClause(envH, inv))
 	}
@@ -253,6 +287,7 @@ func (u *Unit) addEdge(fc *frameCtx, fi *fnInfo, in map[*ssa.BasicBlock][]edge, 
 	}
 	work := st.clone()
 	env := u.loopEnv(fc, li, work, guard, vals)
+	env.loopBound = rt.al.bound
 	for i, inv := range rt.lc.Invariants {
 		p := u.evalClause(env, inv)
 		label := inv.Label
